@@ -20,6 +20,14 @@ class CoreParams;
 class ParticleParams;
 }  // namespace celeritas
 
+namespace verif
+{
+namespace refloc
+{
+class RefLocator;
+}
+}  // namespace verif
+
 namespace vt
 {
 using verif::json;
@@ -134,6 +142,9 @@ struct Problem
     std::vector<std::string> action_labels;  // by action id
     ActionIds ids;
     bool has_at_rest_positron = false;
+    // Reference point locator over the geometry *definition* (lib/ref_locator.hh); null when
+    // the input file cannot be read into an OrangeInput
+    std::shared_ptr<verif::refloc::RefLocator const> locator;
     std::shared_ptr<ProbeSet> probes;  // registered probe actions (null if none)
     std::uint64_t physics_hash = 0;  // hash of the physics `reals` pool
 };
@@ -154,5 +165,8 @@ std::vector<std::vector<celeritas::Primary>>
 draw_primaries(Problem const& prob, verif::Rng& rng, int num_events, int first_event, int max_per_event, double emax);
 
 std::string repo_root();
+
+// Cached reference locator for a bundled geometry (null if unavailable)
+std::shared_ptr<verif::refloc::RefLocator const> load_locator(std::string const& stem);
 
 }  // namespace vt
